@@ -120,6 +120,27 @@ theorem reorder_perm (s : S) (h : Inv s) :
   have k8 := fun n ls => key ls (s.wirePins n) (h.wp_nd n)
   refine ⟨?_, ?_, ?_, ?_, ?_, ?_, ?_, ?_⟩ <;> intro x l <;> simp only [step] <;> split <;> simp_all
 
+/-- the other half of "accepted exactly when": each reorder setter is accepted iff the new list is a
+    duplicate-free rearrangement of the current members, and then stores exactly the list it was given. -/
+theorem reorder_accepted_iff (s : S) :
+    (∀ n ls, ((step s (.setLibraries n ls)).2 = .ok ↔ isReorder ls (s.libs n) = true) ∧
+             ((step s (.setLibraries n ls)).2 = .ok → (step s (.setLibraries n ls)).1.libs n = ls)) ∧
+    (∀ l ds, ((step s (.setDefinitions l ds)).2 = .ok ↔ isReorder ds (s.defs l) = true) ∧
+             ((step s (.setDefinitions l ds)).2 = .ok → (step s (.setDefinitions l ds)).1.defs l = ds)) ∧
+    (∀ d ps, ((step s (.setPorts d ps)).2 = .ok ↔ isReorder ps (s.ports d) = true) ∧
+             ((step s (.setPorts d ps)).2 = .ok → (step s (.setPorts d ps)).1.ports d = ps)) ∧
+    (∀ d cs, ((step s (.setCables d cs)).2 = .ok ↔ isReorder cs (s.cables d) = true) ∧
+             ((step s (.setCables d cs)).2 = .ok → (step s (.setCables d cs)).1.cables d = cs)) ∧
+    (∀ d is, ((step s (.setChildren d is)).2 = .ok ↔ isReorder is (s.children d) = true) ∧
+             ((step s (.setChildren d is)).2 = .ok → (step s (.setChildren d is)).1.children d = is)) ∧
+    (∀ p qs, ((step s (.setPins p qs)).2 = .ok ↔ isReorder qs (s.pins p) = true) ∧
+             ((step s (.setPins p qs)).2 = .ok → (step s (.setPins p qs)).1.pins p = qs)) ∧
+    (∀ c ws, ((step s (.setWires c ws)).2 = .ok ↔ isReorder ws (s.wires c) = true) ∧
+             ((step s (.setWires c ws)).2 = .ok → (step s (.setWires c ws)).1.wires c = ws)) ∧
+    (∀ w rs, ((step s (.setWirePins w rs)).2 = .ok ↔ isReorder rs (s.wirePins w) = true) ∧
+             ((step s (.setWirePins w rs)).2 = .ok → (step s (.setWirePins w rs)).1.wirePins w = rs)) := by
+  refine ⟨?_, ?_, ?_, ?_, ?_, ?_, ?_, ?_⟩ <;> intro x l <;> simp only [step] <;> split <;> simp_all
+
 /-! Non-vacuity: a concrete history over two netlists, with a connection made through an outer pin,
     reaches a state where the invariant's premises are all inhabited. -/
 def demoOps : List Op :=
